@@ -123,6 +123,17 @@ def judge(ctx, T, r, m, d, actions, payloads, what, sig):
     if not sent.startswith(got):
         bad.append(f'TamperEvident: the receiving application got '
                    f'{got[-40:]!r}..., not a prefix of what was written')
+    # packet level: whatever passed integrity checking and was handed to the
+    # dispatcher (pkt_in hook) is the next genuine packet, unaltered
+    send_side = 'c' if d == 'cs' else 's'
+    emitted = [(t, p) for t, _, p, w in r['rec'].app[send_side] if w]
+    accepted = [(t, p) for t, _, p, _ in r['rec'].rx[recv_side]]
+    if accepted != emitted[:len(accepted)]:
+        k = next(i for i, a in enumerate(accepted)
+                 if i >= len(emitted) or a != emitted[i])
+        bad.append(f'TamperEvident: packet {k + 1} accepted by the receiver '
+                   f'(type {accepted[k][0]}, {len(accepted[k][1])} bytes) is '
+                   f'not the packet the sender emitted at that position')
     changed = m.changed(d)
     # data written before the first altered packet must have arrived
     first = min(a['id'] for a in m.applied) if m.applied else None
@@ -241,6 +252,40 @@ def main(ctx):
                                     'dir': d, 'actions': actions,
                                     'outcome': r['outcome'],
                                     'model_state': m_state})
+    # taint "len" materialised as a rewritten length field (not just one
+    # flipped bit): tiny, block-boundary and huge values, on the classes
+    # whose length travels in the clear and on one of each other class
+    len_combos = [('aes128-ctr', 'hmac-sha2-256-etm@openssh.com'),
+                  ('aes128-cbc', 'hmac-sha1-etm@openssh.com'),
+                  ('aes256-ctr', 'hmac-sha2-512-etm@openssh.com'),
+                  ('aes128-ctr', 'umac-64-etm@openssh.com'),
+                  ('aes128-gcm@openssh.com', macs[0]),
+                  ('aes128-ctr', 'hmac-sha2-256'),
+                  ('chacha20-poly1305@openssh.com', macs[0])]
+    values = [0, 1, 3, 4, 8, 11, 12, 15, 16, 17, 28, 32, 2 ** 31, 2 ** 32 - 1]
+    for ci, (enc, mac) in enumerate(len_combos if not quick
+                                    else len_combos[:5]):
+        kw = dict(encryption_algs=[enc], mac_algs=[mac],
+                  compression_algs=['none'])
+        ph = phases(T, kw, payloads)
+        ms = macsize_of(enc, mac)
+        for d in ('cs', 'sc'):
+            bases, npk = ph[d]
+            for base in (bases[-2:] if quick else bases):
+                for v in (values if not quick else values[(ci + base) % 2::2]):
+                    actions = [dict(dir=d, op='flip', id=base, region='len',
+                                    setlen=v)]
+                    m = T.Mitm(actions, macsize=ms)
+                    r = T.run_session(payloads, client_kw=kw, server_kw=kw,
+                                      mitm=m)
+                    total += 1
+                    judge(ctx, T, r, m, d, actions, payloads,
+                          f'{enc}/{mac} {d} packet {base} length field '
+                          f'rewritten to {v}',
+                          {'module': 'Tamper', 'enc': enc, 'mac': mac,
+                           'dir': d, 'setlen': v})
+                    ctx.count((enc, mac, d, base, 'setlen', v),
+                              nontrivial=m.changed(d))
     # F6 regression: packets removed, the rest arriving in several
     # data_received() calls before the deferred clean-up runs
     for enc in ('aes128-gcm@openssh.com', 'aes256-gcm@openssh.com',
